@@ -14,10 +14,18 @@ package main
 // of Model/Limits.lean): Lean decides invariant, clean refusal, acceptance of fitting steps and the
 // tie to the model.
 //
+// COPY / MOVE message sets overlap the destination's content in every way (none, some, all of the
+// messages already have a copy there; the destination may be the source itself) and are repeated, so
+// that UIDs are consumed without the count growing; about a third of the histories start with a
+// scripted approach (fill a mailbox, COPY the same set into one destination until it is refused, then
+// MOVE it there) before the random steps. Messages are identified across mailboxes by a marker (their
+// RFC822.SIZE, unique per message the harness creates; the two messages of a RACE share one and are
+// flagged `r`).
+//
 // Replay file:
 //   oracle c17limits
 //   limits <maxMailboxes> <maxMessages> <maxUID>
-//   S<i> APPEND <mbox> | S<i> COPY <src> <n> <dst> | S<i> MOVE <src> <n> <dst> | S<i> CREATE <name>
+//   S<i> APPEND <mbox> | S<i> COPY <src> <n | lo:hi> <dst> | S<i> MOVE <src> <n | lo:hi> <dst> | S<i> CREATE <name>
 //   S<i> DELETE <name> | S<i> EXPUNGE <mbox> <k> | K MBOX <name> | K BATCH <mbox> <n>
 //   K BATCH2 <mbox1> <n1> <mbox2> <n2> | RACE <mbox>
 
@@ -152,6 +160,13 @@ type limRunner struct {
 	notes   []string
 	world   []limMB
 	tagged  []string
+	twins   map[int]bool // markers (sizes) of RACE messages: two different messages share one
+	last    string       // status of the last step (ok / no / effect / s1,s2)
+	lastCM  string       // the last COPY / MOVE step
+	// a COPY / MOVE was answered NO earlier in this history: gluon tells the connector before its own limit check
+	// (known finding connector-echo-after-refusal), so from then on the connector's idea of which message is in which
+	// mailbox differs from gluon's, and the echo of a later, accepted command can carry that difference into gluon
+	diverged bool
 }
 
 func newLimRunner(lim [3]int) (*limRunner, error) {
@@ -161,7 +176,7 @@ func newLimRunner(lim [3]int) (*limRunner, error) {
 	if err != nil {
 		return nil, err
 	}
-	r := &limRunner{sys: sys, ctl: ctl, lim: lim, connIDs: map[string]bool{"INBOX": true}, stats: map[string]int{}}
+	r := &limRunner{sys: sys, ctl: ctl, lim: lim, connIDs: map[string]bool{"INBOX": true}, stats: map[string]int{}, twins: map[int]bool{}}
 	dial := func(n string) (*Client, error) {
 		c, err := sys.Dial(n)
 		if err != nil {
@@ -260,7 +275,11 @@ func (r *limRunner) observe() ([]limMB, error) {
 			sort.Slice(items, func(i, j int) bool { return items[i][0] < items[j][0] })
 			var s []string
 			for _, it := range items {
-				s = append(s, fmt.Sprintf("%d.%d", it[0], it[1]))
+				tw := ""
+				if r.twins[it[1]] {
+					tw = "r"
+				}
+				s = append(s, fmt.Sprintf("%d.%d%s", it[0], it[1], tw))
 			}
 			if len(s) > 0 {
 				mb.content = strings.Join(s, "+")
@@ -285,7 +304,8 @@ func awShowWorld(w []limMB) string {
 
 func (r *limRunner) message() []byte {
 	r.msgN++
-	return SimpleMessage(fmt.Sprintf("lim%d", r.msgN), strings.Repeat("y", r.msgN))
+	// 16 bytes more per message: the size identifies the message whatever the length of its marker
+	return SimpleMessage(fmt.Sprintf("lim%d", r.msgN), strings.Repeat("y", 16*r.msgN))
 }
 
 func (r *limRunner) judgeLine(step, op string, before []limMB, status string, after []limMB) {
@@ -362,7 +382,7 @@ func (r *limRunner) exec(step string) error {
 		var reps [2]Reply
 		// two different messages of the same size: which of them gets the lower UID is up to the scheduler
 		r.msgN++
-		body := strings.Repeat("y", r.msgN)
+		body := strings.Repeat("y", 16*r.msgN)
 		lits := [2][]byte{SimpleMessage(fmt.Sprintf("raceA%d", r.msgN), body), SimpleMessage(fmt.Sprintf("raceB%d", r.msgN), body)}
 		for i := 0; i < 2; i++ {
 			wg.Add(1)
@@ -380,6 +400,30 @@ func (r *limRunner) exec(step string) error {
 		for _, rep := range reps {
 			if rep.Err != nil {
 				return fmt.Errorf("race APPEND: %v", rep.Err)
+			}
+		}
+		// the two messages share one marker (RFC822.SIZE: gluon adds its own header, so it is read back from the
+		// server): every message that is new anywhere now is one of them
+		if now, err := r.observe(); err == nil {
+			old := map[string]bool{}
+			for _, m := range before {
+				if m.content != "-" {
+					for _, it := range strings.Split(m.content, "+") {
+						old[m.name+" "+it] = true
+					}
+				}
+			}
+			for _, m := range now {
+				if m.content == "-" {
+					continue
+				}
+				for _, it := range strings.Split(m.content, "+") {
+					if !old[m.name+" "+it] && !strings.HasSuffix(it, "r") {
+						if sz, err := strconv.Atoi(it[strings.Index(it, ".")+1:]); err == nil {
+							r.twins[sz] = true
+						}
+					}
+				}
 			}
 		}
 		// which session wins which UID is up to the scheduler: order the two replies by text
@@ -405,12 +449,17 @@ func (r *limRunner) exec(step string) error {
 		if rep := c.Cmd("SELECT " + awQuoteMB(f[2])); rep.Status != "OK" {
 			return fmt.Errorf("SELECT %s: %s %v", f[2], rep.Tagged, rep.Err)
 		}
-		rep := c.Cmd(fmt.Sprintf("%s 1:%s %s", f[1], f[3], awQuoteMB(f[4])))
+		lo, hi, ok := limRange(f[3])
+		if !ok {
+			return fmt.Errorf("bad message set in %q", step)
+		}
+		rep := c.Cmd(fmt.Sprintf("%s %d:%d %s", f[1], lo, hi, awQuoteMB(f[4])))
 		_ = c.Cmd("UNSELECT")
 		if rep.Err != nil {
 			return rep.Err
 		}
-		op, status = fmt.Sprintf("%s %s %s %s", strings.ToLower(f[1]), f[2], f[3], f[4]), st(rep)
+		r.lastCM = step
+		op, status = fmt.Sprintf("%s %s %d %d %s", strings.ToLower(f[1]), f[2], lo, hi, f[4]), st(rep)
 	case f[1] == "CREATE" && len(f) == 3:
 		c, err := sess()
 		if err != nil {
@@ -451,6 +500,7 @@ func (r *limRunner) exec(step string) error {
 		return fmt.Errorf("bad step %q", step)
 	}
 	r.stats["step."+strings.Fields(op)[0]]++
+	r.last = status
 	if !connector {
 		// the world right after the tagged reply, before the connector's queued (echo) updates are applied
 		mid, err := r.observe()
@@ -458,7 +508,13 @@ func (r *limRunner) exec(step string) error {
 			return err
 		}
 		r.judgeLine(step, op, before, status, mid)
-		before, op, status = mid, "flush", "effect"
+		if status == "no" && (strings.HasPrefix(op, "copy ") || strings.HasPrefix(op, "move ")) {
+			r.diverged = true
+		}
+		if r.diverged && status == "ok" {
+			status = "ok+diverged"
+		}
+		before, op, status = mid, "flush "+status, "effect"
 	}
 	if err := r.sys.Barrier(); err != nil {
 		return err
@@ -471,7 +527,7 @@ func (r *limRunner) exec(step string) error {
 		r.judgeLine(step, op, before, status, after)
 	} else {
 		// applying the connector's echo of an IMAP command must not change anything
-		r.judgeLine(step, "flush", before, "effect", after)
+		r.judgeLine(step, op, before, "effect", after)
 	}
 	r.world = after
 	for _, p := range r.sys.Panics.Take() {
@@ -510,28 +566,49 @@ func (r *limRunner) genStep(g *Rng) string {
 		switch k := g.Intn(100); {
 		case k < 24:
 			return fmt.Sprintf("%s APPEND %s", s, Pick(g, user).name)
-		case k < 40:
-			if len(nonEmpty) == 0 || len(user) < 2 {
-				continue
-			}
-			src := Pick(g, nonEmpty)
-			dst := Pick(g, user)
-			n := g.Range(1, src.count)
-			if dst.name == src.name || limOverlap(src, dst, n) {
-				continue
-			}
-			return fmt.Sprintf("%s COPY %s %d %s", s, src.name, n, dst.name)
 		case k < 52:
-			if len(nonEmpty) == 0 || len(user) < 2 {
+			// COPY / MOVE: any message set, any destination (the source itself included); about one in six
+			// repeats the previous COPY / MOVE (the same set into the same destination again)
+			if len(nonEmpty) == 0 {
 				continue
+			}
+			verb := "COPY"
+			if k >= 40 {
+				verb = "MOVE"
+			}
+			if f := strings.Fields(r.lastCM); len(f) == 5 && g.Chance(1, 6) {
+				if src := r.find(f[2]); src != nil && r.find(f[4]) != nil {
+					if _, hi, ok := limRange(f[3]); ok && hi <= src.count {
+						return fmt.Sprintf("%s %s %s %s %s", s, verb, f[2], f[3], f[4])
+					}
+				}
 			}
 			src := Pick(g, nonEmpty)
 			dst := Pick(g, user)
-			n := g.Range(1, src.count)
-			if dst.name == src.name || limOverlap(src, dst, n) {
+			if g.Bool() {
+				// prefer a destination that already holds a copy of one of the source's messages
+				var ov []limMB
+				for _, m := range user {
+					if m.name != src.name && limOverlapCount(src, m, 1, src.count) > 0 {
+						ov = append(ov, m)
+					}
+				}
+				if len(ov) > 0 {
+					dst = Pick(g, ov)
+				}
+			}
+			if dst.name == src.name && !g.Chance(1, 3) {
 				continue
 			}
-			return fmt.Sprintf("%s MOVE %s %d %s", s, src.name, n, dst.name)
+			lo, hi := 1, src.count
+			switch g.Intn(3) {
+			case 0: // a prefix
+				hi = g.Range(1, src.count)
+			case 1: // any sub-range
+				lo = g.Range(1, src.count)
+				hi = g.Range(lo, src.count)
+			}
+			return fmt.Sprintf("%s %s %s %s %s", s, verb, src.name, limShowRange(lo, hi), dst.name)
 		case k < 64:
 			depth := g.Range(1, 4)
 			var parts []string
@@ -596,25 +673,108 @@ func (r *limRunner) genStep(g *Rng) string {
 	return s + " APPEND INBOX"
 }
 
-// limOverlap: one of the first n messages of src is already in dst (messages are identified by their
-// size). COPY/MOVE then replaces the copy in dst (remove + add with a new UID) instead of adding one;
-// the generator leaves that case out so that `n` is the number of messages added.
-func limOverlap(src, dst limMB, n int) bool {
-	sizes := map[string]bool{}
+// limRange parses the message set of a COPY / MOVE step: `n` (= 1:n) or `lo:hi`.
+func limRange(w string) (int, int, bool) {
+	if i := strings.Index(w, ":"); i >= 0 {
+		lo, e1 := strconv.Atoi(w[:i])
+		hi, e2 := strconv.Atoi(w[i+1:])
+		return lo, hi, e1 == nil && e2 == nil && lo >= 1 && hi >= lo
+	}
+	n, err := strconv.Atoi(w)
+	return 1, n, err == nil && n >= 1
+}
+
+func limShowRange(lo, hi int) string {
+	if lo == 1 {
+		return strconv.Itoa(hi)
+	}
+	return fmt.Sprintf("%d:%d", lo, hi)
+}
+
+// limOverlapCount: how many of the messages lo..hi of src have a copy in dst already (messages are
+// identified by their marker). COPY / MOVE replaces such a copy (remove + add with a new UID).
+func limOverlapCount(src, dst limMB, lo, hi int) int {
+	marks := map[string]bool{}
+	mark := func(it string) string { return strings.TrimSuffix(it[strings.Index(it, ".")+1:], "r") }
 	if dst.content != "-" {
 		for _, it := range strings.Split(dst.content, "+") {
-			sizes[it[strings.Index(it, ".")+1:]] = true
+			marks[mark(it)] = true
 		}
 	}
 	if src.content == "-" {
-		return false
+		return 0
 	}
+	n := 0
 	for i, it := range strings.Split(src.content, "+") {
-		if i < n && sizes[it[strings.Index(it, ".")+1:]] {
-			return true
+		if i+1 >= lo && i+1 <= hi && marks[mark(it)] {
+			n++
 		}
 	}
-	return false
+	return n
+}
+
+// limApproach: a scripted approach to the limits of one destination mailbox. m messages in INBOX; the
+// same set is copied into a fresh mailbox again and again (every repetition replaces the copies and
+// consumes m UIDs) until the COPY is refused or the budget is used up, then a part of the set is
+// copied once more and finally the set is moved there; the caller continues with random steps.
+// next(status of the previous step) returns the next step or "".
+func limApproach(g *Rng, lim [3]int) func(last string) string {
+	m := g.Range(1, 4)
+	if m > lim[1] {
+		m = lim[1]
+	}
+	if lim[2] <= m { // INBOX itself must be able to take them
+		m = lim[2] - 1
+	}
+	if m < 1 {
+		m = 1
+	}
+	dst := Pick(g, []string{"x", "y", "z/w"})
+	extra := g.Intn(3)      // other messages in the destination before the copies start
+	budget := g.Range(2, 7) // at most that many repetitions
+	sub := g.Range(1, m)    // the part copied once more
+	moveLo := g.Range(1, m)
+	moveAll := g.Bool()
+	phase, i := 0, 0
+	return func(last string) string {
+		for {
+			switch phase {
+			case 0:
+				if i < m {
+					i++
+					return "S0 APPEND INBOX"
+				}
+				phase, i = 1, 0
+			case 1:
+				phase = 2
+				return "S0 CREATE " + dst
+			case 2:
+				if i < extra {
+					i++
+					return "S1 APPEND " + dst
+				}
+				phase, i = 3, 0
+			case 3:
+				if i > 0 && last == "no" || i >= budget {
+					phase = 4
+					continue
+				}
+				i++
+				return fmt.Sprintf("S%d COPY INBOX %d %s", i%2, m, dst)
+			case 4:
+				phase = 5
+				return fmt.Sprintf("S0 COPY INBOX %d %s", sub, dst)
+			case 5:
+				phase = 6
+				if moveAll {
+					return fmt.Sprintf("S1 MOVE INBOX %d %s", m, dst)
+				}
+				return fmt.Sprintf("S1 MOVE INBOX %s %s", limShowRange(moveLo, m), dst)
+			default:
+				return ""
+			}
+		}
+	}
 }
 
 type limHistory struct {
@@ -655,13 +815,30 @@ func runLimHistory(g *Rng, lim [3]int, nsteps int, replaySteps []string) *limHis
 			}
 		}
 	} else {
+		var script func(string) string
+		if g.Chance(1, 3) {
+			script = limApproach(g, lim)
+			h.stats["histories.scripted-approach"]++
+		}
 		for k := 0; k < nsteps; k++ {
-			if !run(r.genStep(g)) {
+			step := ""
+			if script != nil {
+				if step = script(r.last); step == "" {
+					script = nil
+				}
+			}
+			if step == "" {
+				step = r.genStep(g)
+			}
+			if !run(step) {
 				break
 			}
 		}
 	}
-	h.lines, h.lsteps, h.notes, h.stats, h.tagged = r.lines, r.steps, r.notes, r.stats, r.tagged
+	for k, v := range r.stats {
+		h.stats[k] += v
+	}
+	h.lines, h.lsteps, h.notes, h.tagged = r.lines, r.steps, r.notes, r.tagged
 	return h
 }
 
@@ -803,7 +980,8 @@ func runLimitsOracle(args []string) int {
 	for k := 0; k < *n; k++ {
 		hg := g.Fork()
 		lim := [3]int{hg.Range(3, 8), hg.Range(1, 5), 1000}
-		if hg.Bool() {
+		if hg.Chance(2, 3) {
+			// a tiny maximum UID: the UID boundary is reached after a handful of insertions
 			lim[2] = lim[1] + hg.Range(1, 8)
 		}
 		res.Stats["histories"]++
